@@ -21,6 +21,7 @@ def fn(name, req, ens, enc="bv", extra=()):
     w(f"//@ func {name}")
     w(f"//@ encoding {enc}")
     if name.startswith(("min_i","max_i")): extra = tuple(extra) + ("class pick2 num2",)
+    elif name == "plus_n_ii": extra = tuple(extra) + ("class num2 sumII",)
     elif not name.startswith(("uneg","bitwise_not","bitcount","BIF")): extra = tuple(extra) + ("class num2",)
     w(f"//@ requires {req}")
     w("//@ modifies nothing")
